@@ -222,10 +222,42 @@ pub fn txt_text(tid: u64, val: u64, mode: u8) -> String {
 }
 
 fn write_chunked(f: &mut fmt::Formatter<'_>, text: &str, seed: u64) -> fmt::Result {
+    use std::fmt::Write as _;
     let mut r = crate::rng::Rng::new(seed ^ 0x5EED_C4A2);
-    let style = r.below(4);
+    let style = r.below(7);
     let chars: Vec<char> = text.chars().collect();
     let mut i = 0;
+    if style >= 4 {
+        // single characters go through `write_char` (style 4: all of them, 5: only the newlines,
+        // 6: a `char` argument of `write!`)
+        let mut run = String::new();
+        for c in chars {
+            match style {
+                4 => f.write_char(c)?,
+                5 => {
+                    if c == '\n' {
+                        f.write_str(&run)?;
+                        run.clear();
+                        f.write_char('\n')?;
+                    } else {
+                        run.push(c);
+                    }
+                }
+                _ => {
+                    if c == '\n' {
+                        write!(f, "{}{}", run, '\n')?;
+                        run.clear();
+                    } else {
+                        run.push(c);
+                    }
+                }
+            }
+        }
+        if !run.is_empty() {
+            f.write_str(&run)?;
+        }
+        return Ok(());
+    }
     while i < chars.len() {
         if r.chance(1, 6) {
             f.write_str("")?;
